@@ -2,7 +2,7 @@
    Statements only; proofs in Proofs/C17/*.v.  UARTSerializer_clock, UARTDeserializer_clock, ClockSyncFSM_clock, Reg_clock and the
    gate functions are REGENERATED from /repo on every run (Gen/Seq.v, Gen/Prims.v); Model/Uart.v wraps them in the cycle semantics. *)
 From V Require Import Base.Bits Gen.Seq Model.Uart Spec.C17
-  Proofs.C17.Ser Proofs.C17.SwRx Proofs.C17.Des Proofs.C17.Refute Proofs.C17.Cgr Proofs.C17.LinkBounded Proofs.C17.Link.
+  Proofs.C17.Ser Proofs.C17.SwRx Proofs.C17.Des Proofs.C17.Refute Proofs.C17.Cgr Proofs.C17.LinkBounded Proofs.C17.Link Proofs.C17.Line.
 
 (* ---- the line is 8N1.  For every byte value, every state of the READY serializer, EVERY eleven baud intervals
    (gaps g0..g10 between pulses: any phase g0, any spacing, gap 0 included — stronger than "period P >= 2"), whatever the
@@ -105,6 +105,41 @@ Theorem link_delivers_always_ready :
     /\ link_accepted n link_init (ins ++ quiet) = link_accepted n link_init ins.
 Proof. exact link_delivers_ready_lemma. Qed.
 
+(* ---- THE LINE OF THE LINK is standard 8N1, universally and for MORE THAN ONE frame.  The tx wire of the composed link (the s_tx wire after
+   each clock edge of link_step from power-up; the baud pulses are the ones the link's own divider produces - no assumed schedule),
+   for EVERY half period n >= 2 (bit period 2n), EVERY producer behaviour (any bytes, any gaps, back to back, garbage while busy)
+   and EVERY consumer (no keeps_up hypothesis: the line does not depend on the receive side).
+   sw_rx_all (Spec/C17.v) is the independent software receiver repeated over the record: wait for a falling edge, sample mid-bit at
+   the nominal period 2n, start must be 0, eight data bits LSB first, stop must be 1, back to waiting; None = a framing error. *)
+
+(* the record ends with the serializer's ready wire high (= the last frame, stop bit included, is complete):
+   the receiver returns exactly the bytes the serializer accepted, in order, and sees no framing error *)
+Theorem link_line_8n1_ready :
+  forall (n : Z) (ins : list link_in),
+    2 <= n -> Forall (fun i => 0 <= li_v i < 256) ins -> s_ready (l_ser (final (link_step n) link_init ins)) = 1 ->
+    sw_rx_all (Z.to_nat (2 * n)) (map (fun l => s_tx (l_ser l)) (runs (link_step n) link_init ins)) = Some (link_accepted n link_init ins).
+Proof. exact link_line_8n1_ready_lemma. Qed.
+
+(* the same under the hypothesis of the link theorems: the producer is finally quiet (11 bit periods + 5 clocks suffice here, so every
+   history allowed by link_delivers, which asks for 24n + 8, is covered) *)
+Theorem link_line_8n1 :
+  forall (n : Z) (ins quiet : list link_in),
+    2 <= n -> Forall (fun i => 0 <= li_v i < 256) ins -> Forall quiet_in quiet -> 22 * n + 5 <= Z.of_nat (length quiet) ->
+    sw_rx_all (Z.to_nat (2 * n)) (map (fun l => s_tx (l_ser l)) (runs (link_step n) link_init (ins ++ quiet)))
+      = Some (link_accepted n link_init (ins ++ quiet))
+    /\ link_accepted n link_init (ins ++ quiet) = link_accepted n link_init ins.
+Proof. exact link_line_8n1_lemma. Qed.
+
+(* the line itself, without any receiver: the whole tx record is  high (>= 1 clock), then for each accepted byte b, in order, the ten
+   levels of frame8n1 b (low start bit, b0..b7, high stop bit) held EXACTLY 2n clocks each, followed by some clocks high *)
+Theorem link_line_frames :
+  forall (n : Z) (ins quiet : list link_in),
+    2 <= n -> Forall (fun i => 0 <= li_v i < 256) ins -> Forall quiet_in quiet -> 22 * n + 5 <= Z.of_nat (length quiet) ->
+    exists (m : nat) (fs : list (Z * nat)),
+      map (fun l => s_tx (l_ser l)) (runs (link_step n) link_init (ins ++ quiet)) = repeat 1 (S m) ++ frames_line (Z.to_nat (2 * n)) fs
+      /\ map fst fs = link_accepted n link_init ins.
+Proof. exact link_line_frames_quiet_lemma. Qed.
+
 (* composition of the whole link model (serializer -> clock generation and recovery -> deserializer), PARTIAL: by exhaustive
    evaluation for all 256 byte values and the half periods 2 <= n <= 10 (one byte) / 2 <= n <= 5 (two bytes back to back), from
    power-up with an always-ready consumer.  Kept as an independent cross-check of the universal theorems above (it evaluates the
@@ -181,6 +216,36 @@ Proof.
   - vm_compute. reflexivity.
 Qed.
 
+Example link_line_8n1_instance :     (* ratio 4; 165 and 115 back to back, 65 after a gap; the consumer is NEVER ready (nothing is delivered) *)
+  let ins := map (fun k => {| li_valid := if (k <? 70)%nat || (110 <? k)%nat then 1 else 0; li_v := 165 - 50 * Z.of_nat (k / 40); li_ready := 0 |})
+                 (seq 0 125) in
+  let quiet := repeat {| li_valid := 0; li_v := 0; li_ready := 0 |} 49 in
+  let line := map (fun l => s_tx (l_ser l)) (runs (link_step 2) link_init (ins ++ quiet)) in
+  Forall (fun i => 0 <= li_v i < 256) ins /\ Forall quiet_in quiet /\ 22 * 2 + 5 <= Z.of_nat (length quiet) /\
+  s_ready (l_ser (final (link_step 2) link_init (ins ++ quiet))) = 1 /\
+  link_accepted 2 link_init (ins ++ quiet) = [165; 115; 65] /\ link_delivered 2 link_init (ins ++ quiet) = [] /\
+  sw_rx_all 4 line = Some [165; 115; 65] /\
+  line = repeat 1 3 ++ frames_line 4 [(165, 4%nat); (115, 28%nat); (65, 19%nat)].
+Proof.
+  cbv zeta. split; [|split; [|split; [|split; [|split; [|split; [|split]]]]]].
+  - apply Forall_forall. intros i Hi. apply in_map_iff in Hi as (k & <- & Hk). apply in_seq in Hk. cbn [li_v].
+    assert (Hq : (k / 40 < 4)%nat) by (apply Nat.div_lt_upper_bound; lia). revert Hq. generalize (k / 40)%nat. intros q Hq. lia.
+  - apply Forall_forall. intros i Hi. apply repeat_spec in Hi. subst i. unfold quiet_in. cbn. lia.
+  - vm_compute. discriminate.
+  - vm_compute. reflexivity.
+  - vm_compute. reflexivity.
+  - vm_compute. reflexivity.
+  - vm_compute. reflexivity.
+  - vm_compute. reflexivity.
+Qed.
+
+Example sw_rx_all_discriminates :    (* the receiver is not trivially satisfied: low stop bit = framing error; a wrong bit period reads other bytes *)
+  sw_rx_all 4 (repeat 1 3 ++ frames_line 4 [(165, 4%nat)] ++ hold (repeat 4%nat 10) (frame_head 90 ++ [0]) ++ repeat 1 9) = None /\
+  sw_rx_all 4 (repeat 1 3 ++ frames_line 4 [(165, 4%nat); (90, 7%nat)]) = Some [165; 90] /\
+  sw_rx_all 5 (repeat 1 3 ++ frames_line 4 [(165, 4%nat); (90, 7%nat)]) <> Some [165; 90] /\
+  sw_rx_all 4 (repeat 1 3 ++ frames_line 4 [(165, 4%nat)] ++ hold (repeat 4%nat 6) (frame_head 90)) = Some [165].
+Proof. vm_compute. repeat split; discriminate. Qed.
+
 Print Assumptions ser_frame.
 Print Assumptions des_frame.
 Print Assumptions sw_receiver_8n1.
@@ -191,5 +256,8 @@ Print Assumptions link_delivers_partial.
 Print Assumptions link_never_loses.
 Print Assumptions link_delivers.
 Print Assumptions link_delivers_always_ready.
+Print Assumptions link_line_8n1_ready.
+Print Assumptions link_line_8n1.
+Print Assumptions link_line_frames.
 Print Assumptions des_all_pacings_refuted.
 Print Assumptions link_all_pacings_refuted.
